@@ -125,6 +125,7 @@ class write:
         and (self.compression_level is None or isinstance(self.compression_level, int))
         and A.WF(self.schema, self._named_schemas)
         and implies(isinstance(self.schema, dict), "logicalType" not in self.schema)
+        and A.DEFAULTS_DATA(self.schema, self._named_schemas, self.options) and is_data(record)
         and A.CONFORMS(record, self.schema, self._named_schemas, self.options)
         and not self.options.get("strict") and not self.options.get("strict_allow_default"))
     modifies = ["self"]
